@@ -68,6 +68,16 @@ def cnt_pred(prog: Program, res: Result) -> None:
         for c in ast.walk(fi.node):
             if isinstance(c, ast.Call) and (dotted(c.func) or "").split(".")[-1] == "from_aggregator":
                 for a in list(c.args) + [kw.value for kw in c.keywords]:
+                    if isinstance(a, ast.Name):
+                        # a named predicate (nested or module-level function whose body is `return <comparison>`) reads like the lambda
+                        cands = [d for d in ast.walk(fi.node) if isinstance(d, ast.FunctionDef) and d.name == a.id and d is not fi.node]
+                        q_ = f"{fi.module}.{a.id}"
+                        if not cands and q_ in prog.functions:
+                            cands = [prog.functions[q_].node]
+                        for d in cands:
+                            body = [st for st in d.body if not (isinstance(st, ast.Expr) and isinstance(st.value, ast.Constant))]
+                            if len(body) == 1 and isinstance(body[0], ast.Return) and isinstance(body[0].value, ast.Compare):
+                                a = ast.Lambda(args=d.args, body=body[0].value)
                     if isinstance(a, ast.Lambda) and isinstance(a.body, ast.Compare) and len(a.body.ops) == 1:
                         preds.append((a, c))
         if not preds:
